@@ -180,7 +180,32 @@ class Abs64Relocation(Relocation):
 
 
 # Actual instructions:
-class X86Instruction(Instruction):
+class ImplicitOperands:
+    """Registers an instruction reads or writes without naming them in an
+    operand: the register form of an r/m operand that is the destination
+    (rm_write), and fixed registers such as cl of the shifts or rax/rdx of
+    div (implicit_uses / implicit_defs)."""
+
+    rm_write = False
+    implicit_uses = ()
+    implicit_defs = ()
+
+    @property
+    def used_registers(self):
+        return super().used_registers + list(self.implicit_uses)
+
+    @property
+    def defined_registers(self):
+        regs = super().defined_registers
+        if self.rm_write:
+            reg = getattr(getattr(self, "rm", None), "reg_rm", None)
+            if reg is not None:
+                regs.append(reg)
+        regs.extend(self.implicit_defs)
+        return regs
+
+
+class X86Instruction(ImplicitOperands, Instruction):
     """Base instruction for all x86 instructions"""
 
     tokens = [ModRmToken]
@@ -720,6 +745,7 @@ def make_rm64(mnemonic, opcode, o):
     rm = Operand("rm", rm64_modes)
     syntax = Syntax([mnemonic, " ", rm], priority=2)
     members = {"syntax": syntax, "rm": rm, "opcode": opcode, "reg": o}
+    members["rm_write"] = mnemonic != "jmp"
     return type(mnemonic.title(), (RmBase,), members)
 
 
@@ -728,6 +754,7 @@ def make_rm32(mnemonic, opcode, o):
     rm = Operand("rm", rm32_modes)
     syntax = Syntax([mnemonic, " ", rm], priority=2)
     members = {"syntax": syntax, "rm": rm, "opcode": opcode, "reg": o}
+    members["rm_write"] = mnemonic != "jmp"
     return type(mnemonic.title(), (RmBase32,), members)
 
 
@@ -736,6 +763,7 @@ def make_rm16(mnemonic, opcode, o):
     rm = Operand("rm", rm16_modes)
     syntax = Syntax([mnemonic, " ", rm], priority=2)
     members = {"syntax": syntax, "rm": rm, "opcode": opcode, "reg": o}
+    members["rm_write"] = mnemonic != "jmp"
     return type(mnemonic.title(), (RmBase16,), members)
 
 
@@ -750,6 +778,7 @@ def make_rm_reg64(mnemonic, opcode, read_op1=True, write_op1=True):
     reg = Operand("reg", Register64, read=True)
     syntax = Syntax([mnemonic, " ", rm, ",", " ", reg], priority=0)
     members = {"syntax": syntax, "rm": rm, "reg": reg, "opcode": opcode}
+    members["rm_write"] = write_op1
     return type(mnemonic + "_ins", (rmregbase64,), members)
 
 
@@ -759,6 +788,7 @@ def make_rm_reg32(mnemonic, opcode, read_op1=True, write_op1=True):
     reg = Operand("reg", Register32, read=True)
     syntax = Syntax([mnemonic, " ", rm, ",", " ", reg], priority=0)
     members = {"syntax": syntax, "rm": rm, "reg": reg, "opcode": opcode}
+    members["rm_write"] = write_op1
     return type(mnemonic + "_ins", (rmregbase32,), members)
 
 
@@ -768,6 +798,7 @@ def make_rm_reg16(mnemonic, opcode, read_op1=True, write_op1=True):
     reg = Operand("reg", Register16, read=True)
     syntax = Syntax([mnemonic, " ", rm, ",", " ", reg], priority=0)
     members = {"syntax": syntax, "rm": rm, "reg": reg, "opcode": opcode}
+    members["rm_write"] = write_op1
     return type(mnemonic + "_ins", (rmregbase16,), members)
 
 
@@ -777,6 +808,7 @@ def make_rm_reg8(mnemonic, opcode, read_op1=True, write_op1=True):
     reg = Operand("reg", Register8, read=True)
     syntax = Syntax([mnemonic, " ", rm, ",", " ", reg], priority=0)
     members = {"syntax": syntax, "rm": rm, "reg": reg, "opcode": opcode}
+    members["rm_write"] = write_op1
     return type(mnemonic + "_ins", (rmregbase64,), members)
 
 
@@ -937,6 +969,8 @@ class InstructionCollection:
 
         class shift_cl_base(X86Instruction):
             rm = Operand("rm", rm_modes)
+            rm_write = True
+            implicit_uses = (cl,)
             tokens = bit_tokens
             patterns = {"opcode": 0xD3}
             for k, v in extra_patterns.items():
@@ -1029,6 +1063,8 @@ CmpImm = make_regimm("cmp", 0x81, 7)
 
 class shift8_cl_base(X86Instruction):
     rm = Operand("rm", rm8_modes)
+    rm_write = True
+    implicit_uses = (cl,)
     tokens = [RexToken, OpcodeToken, ModRmToken]
     patterns = {"opcode": 0xD2}
     opcode = 0xD2
@@ -1108,6 +1144,8 @@ class Div(X86Instruction):
     rdx and the quotient in rax.
     """
 
+    implicit_uses = (rax, rdx)
+    implicit_defs = (rax, rdx)
     reg1 = Operand("reg1", Register64, read=True)
     syntax = Syntax(["div", " ", reg1])
     tokens = [RexToken, OpcodeToken, ModRmToken]
@@ -1126,6 +1164,8 @@ class Idiv(X86Instruction):
     rdx and the quotient in rax.
     """
 
+    implicit_uses = (rax, rdx)
+    implicit_defs = (rax, rdx)
     reg1 = Operand("reg1", Register64, read=True)
     syntax = Syntax(["idiv", " ", reg1])
     tokens = [RexToken, OpcodeToken, ModRmToken]
@@ -1144,6 +1184,8 @@ class Div32(X86Instruction):
     rdx and the quotient in rax.
     """
 
+    implicit_uses = (eax, edx)
+    implicit_defs = (eax, edx)
     reg1 = Operand("reg1", Register32, read=True)
     syntax = Syntax(["div", " ", reg1])
     tokens = [RexToken, OpcodeToken, ModRmToken]
@@ -1162,6 +1204,8 @@ class Idiv32(X86Instruction):
     rdx and the quotient in rax.
     """
 
+    implicit_uses = (eax, edx)
+    implicit_defs = (eax, edx)
     reg1 = Operand("reg1", Register32, read=True)
     syntax = Syntax(["idiv", " ", reg1])
     tokens = [RexToken, OpcodeToken, ModRmToken]
@@ -1180,6 +1224,8 @@ class Div16(X86Instruction):
     dx and the quotient in ax.
     """
 
+    implicit_uses = (ax, dx)
+    implicit_defs = (ax, dx)
     reg1 = Operand("reg1", Register16, read=True)
     syntax = Syntax(["div", " ", reg1])
     tokens = [PrefixToken, OpcodeToken, ModRmToken]
@@ -1197,6 +1243,8 @@ class Idiv16(X86Instruction):
     dx and the quotient in ax.
     """
 
+    implicit_uses = (ax, dx)
+    implicit_defs = (ax, dx)
     reg1 = Operand("reg1", Register16, read=True)
     syntax = Syntax(["idiv", " ", reg1])
     tokens = [PrefixToken, OpcodeToken, ModRmToken]
@@ -1302,6 +1350,8 @@ class MovAdr(X86Instruction):
 class Cdqe(X86Instruction):
     """Convert with sign extension to double size"""
 
+    implicit_uses = (eax,)
+    implicit_defs = (rax,)
     syntax = Syntax(["cdqe"])
     tokens = [RexToken, OpcodeToken]
     patterns = {"w": 1, "opcode": 0x98}
@@ -1310,6 +1360,8 @@ class Cdqe(X86Instruction):
 class Cwd(X86Instruction):
     """Convert ax with sign extension to double size into dx:ax"""
 
+    implicit_uses = (ax,)
+    implicit_defs = (dx,)
     syntax = Syntax(["cwd"])
     tokens = [PrefixToken, OpcodeToken]
     patterns = {"prefix": 0x66, "opcode": 0x99}
@@ -1318,6 +1370,8 @@ class Cwd(X86Instruction):
 class Cdq(X86Instruction):
     """Convert with sign extension to double size into edx:eax"""
 
+    implicit_uses = (eax,)
+    implicit_defs = (edx,)
     syntax = Syntax(["cdq"])
     tokens = [RexToken, OpcodeToken]
     patterns = {"w": 0, "opcode": 0x99}
@@ -1326,6 +1380,8 @@ class Cdq(X86Instruction):
 class Cqo(X86Instruction):
     """Convert with sign extension to double size into rdx:rax"""
 
+    implicit_uses = (rax,)
+    implicit_defs = (rdx,)
     syntax = Syntax(["cqo"])
     tokens = [RexToken, OpcodeToken]
     patterns = {"w": 1, "opcode": 0x99}
